@@ -174,6 +174,33 @@ async def _w1(cfg, texts):
 
     a, b = Peer("A", cfg["offerer"]), Peer("B", cfg["answerer"])
     try:
+        if cfg.get("rejected_offer"):
+            # a valid offer is applied, then a second one which has no codec in common is refused; what the library
+            # generates afterwards is still a description and must round-trip like any other
+            from aiortc import RTCSessionDescription
+
+            await a.pc.setLocalDescription(await a.pc.createOffer())
+            good = a.pc.localDescription.sdp
+            await b.pc.setRemoteDescription(a.pc.localDescription)
+            # only the last audio/video section loses its codecs (RTX keeps its name): the sections before it are processed first
+            parts = re.split(r"(?m)^(?=m=)", good)
+            last = max((i for i, p_ in enumerate(parts) if p_.startswith(("m=audio", "m=video"))), default=None)
+            if last is None:
+                return
+            parts[last] = re.sub(r"(?m)^(a=rtpmap:\d+ )(?!rtx/)", r"\1X", parts[last])
+            bad = "".join(parts)
+            try:
+                await b.pc.setRemoteDescription(RTCSessionDescription(sdp=bad, type="offer"))
+                refused = False
+            except Exception:
+                refused = True
+            answer = await b.pc.createAnswer()
+            rnd = {"offer": good, "createAnswer-after-refused-offer" if refused else "createAnswer-after-second-offer": answer.sdp}
+            texts.append(rnd)  # judged even if the calls below fail
+            await b.pc.setLocalDescription(answer)
+            rnd["answer"] = b.pc.localDescription.sdp
+            await a.pc.setRemoteDescription(b.pc.localDescription)
+            return
         await negotiate(a, b, texts)
         fu = cfg.get("followup")
         if fu in ("add-media", "swap-add-media"):
@@ -197,13 +224,17 @@ def case_w1(rng, out, pool):
     ensure_host_addresses()
     for _ in range(6):
         cfg = gen_config(rng)
-        desc = {"kind": "W1", "config": repr(config_key(cfg))[:400]}
+        if rng.random() < 0.25 and any(i[0] == "t" for i in cfg["offerer"]["items"]):
+            cfg["rejected_offer"] = True
+        desc = {"kind": "W1", "config": repr(config_key(cfg))[:400], "rejected_offer": cfg.get("rejected_offer", False)}
         texts = []
         try:
             run_async(_w1(cfg, texts), timeout=60)
         except Exception as exc:
             out.counters["w1_negotiation_failed"] += 1  # C03's business; the texts produced so far are still judged
         for rnd in texts:
+            if any(k.startswith("createAnswer-after-refused") for k in rnd):
+                out.counters["w1_answers_after_refused_offer"] += 1
             for name, t in rnd.items():
                 d = desc | {"which": name}
                 out.counters["w1_texts"] += 1
